@@ -54,7 +54,7 @@ def gen_case(rng, small=False):
         entries.append([list(k), ids])
     common = pick(rng, kcls)
     return {"entries": entries, "common": common, "arity": arity, "coord_class": ccls, "common_class": kcls,
-            "layout": rng.choice(LAYOUTS)}
+            "layout": rng.choice(LAYOUTS), "handle": rng.choice(HANDLES)}
 
 
 def exhaustive_cases():
@@ -140,16 +140,35 @@ def rowid_array(r, layout=None):
     return a
 
 
-def impl_save(entries, common, layout=None):
+HANDLES = [None, None, None, "wb", "ab", "a+b", "r+b", "unbuffered"]
+
+
+def impl_save(entries, common, layout=None, handle=None):
+    """IndxIO.save through a TemporaryFile (default) or through a named file opened in another mode: write-only,
+    append (new empty file), append+read, update of an existing empty file, unbuffered"""
     from catii.indxio import IndxIO
     d = {tuple(k): rowid_array(r, layout) for k, r in entries}
-    with tempfile.TemporaryFile() as f:
-        try:
-            IndxIO.save(f, d, common, np.dtype(np.uint32))
-        except Exception as e:
-            return ("raise", type(e).__name__ + ": " + str(e)[:100])
-        f.seek(0)
-        return ("ok", f.read())
+    if handle is None:
+        with tempfile.TemporaryFile() as f:
+            try:
+                IndxIO.save(f, d, common, np.dtype(np.uint32))
+            except Exception as e:
+                return ("raise", type(e).__name__ + ": " + str(e)[:100])
+            f.seek(0)
+            return ("ok", f.read())
+    with tempfile.TemporaryDirectory(prefix="catii-indx-") as td:
+        path = os.path.join(td, "x.indx")
+        if handle == "r+b":
+            open(path, "wb").close()
+        mode = {"wb": "wb", "ab": "ab", "a+b": "a+b", "r+b": "r+b", "unbuffered": "wb"}[handle]
+        kw = {"buffering": 0} if handle == "unbuffered" else {}
+        with open(path, mode, **kw) as f:
+            try:
+                IndxIO.save(f, d, common, np.dtype(np.uint32))
+            except Exception as e:
+                return ("raise", type(e).__name__ + ": " + str(e)[:100])
+        with open(path, "rb") as f:
+            return ("ok", f.read())
 
 
 class Loader:
@@ -222,4 +241,6 @@ def small_desc(case):
              "first": case["entries"][:2]}
     if case.get("layout"):
         s["layout"] = case["layout"]
+    if case.get("handle"):
+        s["handle"] = case["handle"]
     return s
